@@ -33,6 +33,7 @@ ASSUMPTIONS = [
 
 ILIS = ['i1', 'i2', 'i3', 'i4', 'i5', 'i6', '', '', 'in']
 TYPES = ('hypernym', 'hypernym', 'instance_hypernym', 'hyponym', 'similar', 'zz_rel')
+_ALL_TYPES = tuple(sorted(set(TYPES)))
 
 
 def _lex(draw, lid, n, nrel, lex_id=None, version='1', prefer=()):
@@ -250,6 +251,18 @@ def oracle(case):
                     borrowed.append(k)
         for p, e, g in diff({'__groups__': [own, borrowed]}, got['get_related'], limit=2):
             out.append(Disc('expand:get_related-order', f'get_related{p}', e, g, note=rss.key))
+        # second hop: a placeholder keeps answering within the Wordnet it came from (same
+        # expand lexicons, same scope), whatever else is installed
+        for t in ss.get_related():
+            k = key_of(t)
+            if isinstance(k, dict):
+                exp_next = sorted(_kstr(x) for x in _related(view, ('ph', k['ili']),
+                                                            _ALL_TYPES, rss.owner))
+                got_next = sorted(_kstr(key_of(x)) for x in t.get_related())
+                if exp_next != got_next:
+                    out.append(Disc('expand:second-hop-from-placeholder',
+                                    f'*INFERRED*[{k["ili"]}].get_related()', exp_next, got_next,
+                                    note=rss.key))
         # hypernym paths through placeholders
         exp_paths = sorted(reference_paths(view, rss, names))
         got_paths = sorted([_kstr(key_of(x)) for x in path] for path in ss.hypernym_paths())
